@@ -81,6 +81,8 @@ MUTANTS = [
     ("image blanked in place", "AegeanTools/source_finder.py",
      "            data_box = copy.deepcopy(im[xmin:xmax, ymin:ymax])",
      "            data_box = im[xmin:xmax, ymin:ymax]", "C02-R8"),
+    ("background subtracted twice (seed C02d)", "AegeanTools/source_finder.py",
+     "            bkg=np.zeros_like(data),", "            bkg=global_data.bkgimg,", "C02-R9"),
 ]
 TWINS = [
     ("structure literal", "AegeanTools/source_finder.py",
@@ -246,6 +248,7 @@ def run(ctx):
                   "the island's mask must be the per-island mask",
                   node=setm[0] if setm else m.loop)
     r8_loop(ctx, prog, m)
+    r9_background(ctx, prog)
     # ---------------------------------------------------------------- R3
     ctx.rule("C02-R3", "the seed test and the region pixel list are "
              "restricted to the island's own label, not the whole bounding "
@@ -549,3 +552,72 @@ def r8_loop(ctx, prog, m):
               norm(st[0].value) == sm.params[1],
               "PixelIsland.set_mask must store the given mask unchanged",
               node=st[0] if st else sm.node)
+
+
+def r9_background(ctx, prog):
+    """the background is subtracted exactly once before segmentation"""
+    from ..core import as_update
+    from .c08 import _resolve_local
+    ctx.rule("C02-R9", "the background map is subtracted exactly once: "
+             "load_globals stores the image with the background already "
+             "subtracted, so the driver hands find_islands (which computes "
+             "|im - bkg| / rms itself) a ZERO background together with that "
+             "image -- or the raw image together with the background map, "
+             "never the subtracted image and the map")
+    lg = prog.func("source_finder.SourceFinder.load_globals")
+    subs = [st for st in walk_no_nested(lg.node)
+            if isinstance(st, (ast.Assign, ast.AugAssign)) and
+            (as_update(st) or (None, None, ""))[1] is ast.Sub and
+            "bkgimg" in (as_update(st) or (None, None, ""))[2]]
+    stores = [st for st in walk_no_nested(lg.node) if isinstance(st, ast.Assign)
+              and norm(st.targets[0]).endswith("global_data.img")]
+    subtracted = False
+    for st in subs:
+        tgt = as_update(st)[0]
+        if any(norm(x.value) == tgt and x.lineno > st.lineno
+               for x in stores) or tgt.endswith("global_data.img"):
+            subtracted = True
+    ctx.ob("C02-R9", lg, "global_data.img is stored %s the background "
+           "subtraction (%d subtraction statement(s))" %
+           ("after" if subtracted else "WITHOUT", len(subs)), True, {},
+           subs[0] if subs else lg.node)
+    dr = prog.func("source_finder.SourceFinder.find_sources_in_image")
+    calls = [c for c in walk_no_nested(dr.node) if isinstance(c, ast.Call)
+             and norm(c.func) == "find_islands"]
+    ctx.floor("C02-R9", len(calls), 1, "find_islands calls in the driver")
+    for c in calls:
+        im = kwarg(c, "im") or (c.args[0] if c.args else None)
+        bk = kwarg(c, "bkg") or (c.args[1] if len(c.args) > 1 else None)
+        if im is None or bk is None:
+            raise AnalysisError("C02-R9: im / bkg arguments of find_islands")
+        imr = im
+        for _ in range(3):
+            if isinstance(imr, ast.Name):
+                imr = _resolve_local(dr.node, imr)
+        from_globals = norm(imr).endswith("global_data.img")
+        bkr = bk
+        for _ in range(3):
+            if isinstance(bkr, ast.Name):
+                bkr = _resolve_local(dr.node, bkr)
+        zero = (isinstance(bkr, ast.Constant) and bkr.value == 0) or (
+            isinstance(bkr, ast.Call) and norm(bkr.func) in (
+                "np.zeros_like", "np.zeros", "numpy.zeros_like",
+                "numpy.zeros"))
+        is_map = "bkgimg" in norm(bkr)
+        if not from_globals:
+            ctx.unknown_site("C02-R9", dr, "image argument %s of "
+                             "find_islands not traced to global_data.img" %
+                             norm(im), node=c)
+            continue
+        ok = (subtracted and zero) or (not subtracted and is_map)
+        ctx.check("C02-R9", dr, "find_islands(im=%s, bkg=%s)" %
+                  (norm(im), norm(bk, 40)), ok,
+                  "the image handed to find_islands has the background %s "
+                  "and the bkg argument is %s: islands are segmented on "
+                  "|image - %s*bkg| / rms, so groups below the thresholds "
+                  "become islands where the background is negative and "
+                  "seeded islands vanish where it is positive" % (
+                      "already subtracted" if subtracted else "NOT "
+                      "subtracted", "the background map" if is_map else
+                      "zero" if zero else norm(bk, 40),
+                      "2" if subtracted and is_map else "0"), node=c)
